@@ -222,7 +222,7 @@ def run_e1(prop, tier, config, spec, parts, broken):
     if not insts:
         return None
     log('-- E1/Kani config=%s: %d harnesses' % (config, len(insts)))
-    r = run_kani(prop, tier, config, pats, harness_timeout=spec.get('harness_timeout', '20m' if tier == 'quick' else '60m'))
+    r = run_kani(prop, tier, config, pats, jobs=spec.get('jobs', 16), harness_timeout=spec.get('harness_timeout', '20m' if tier == 'quick' else '60m'))
     an = analyse_kani(r['json'])
     part = dict(engine='E1/kani', config=config, cmd=r['cmd'], wall_s=round(r['wall'], 1), harnesses={}, log=r['log'])
     parts.append(part)
